@@ -499,6 +499,27 @@ func TestVerifC09(t *testing.T) {
 	}
 
 	c09ManyPaddings(r)
+	{
+		irng := rand.New(rand.NewSource(r.Seed + 77))
+		var cs []string
+		for i := 0; i < r.N(300, 3000); i++ {
+			bs, _ := encodeItems(genItems(irng, 300))
+			if irng.Intn(3) == 0 && len(bs) > 0 {
+				bs = bs[:irng.Intn(len(bs)+1)] // truncated
+			}
+			if irng.Intn(5) == 0 {
+				bs = append([]byte{}, bs...)
+				for k := 0; k < 1+irng.Intn(3) && len(bs) > 0; k++ {
+					bs[irng.Intn(len(bs))] = byte(irng.Intn(256))
+				}
+			}
+			cs = append(cs, string(bs))
+		}
+		r.Independent("readdata", "ReadData over a stream of its own", cs, func(c string) string {
+			line, _, st := readAllReal(bytes.NewReader([]byte(c)))
+			return line + " " + st
+		})
+	}
 
 	// 6. independent streams written at the same time (each client session pads and frames its own carrier):
 	// what is read back from a stream is exactly what was written to it, whatever the other writers do.  The
